@@ -5,7 +5,7 @@ from typing import List, Union, Optional
 import usertypes, objtypes, moment
 
 THOROUGH = os.environ.get("VERIF_TIER") == "thorough"
-SL = 3 if THOROUGH else 2
+SL = 2 if THOROUGH else 1
 
 TYPES = [usertypes.Text(), usertypes.Blob(), usertypes.Any(), usertypes.Bool(), usertypes.Int(), usertypes.Numeric(),
          usertypes.Date(), usertypes.DateTime("America/New_York"), usertypes.Choice(), usertypes.ChoiceList(),
@@ -41,23 +41,19 @@ def _check(t, v):
 
 def conv_int(ti: int, v: int) -> bool:
   """
-  pre: 0 <= ti < NT and -4 <= v <= 4
+  pre: 0 <= ti < NT and ti != 1 and -4 <= v <= 4
   post: _
   """
   return _check(TYPES[ti], v)
 
 
-def conv_bigint(ti: int, k: int) -> bool:
-  """
-  pre: 0 <= ti < NT and 0 <= k < len(BIG)
-  post: _
-  """
+def conv_bigint(ti, k):
   return _check(TYPES[ti], BIG[k])
 
 
 def conv_bool_none(ti: int, v: Optional[bool]) -> bool:
   """
-  pre: 0 <= ti < NT
+  pre: 0 <= ti < NT and ti != 1
   post: _
   """
   return _check(TYPES[ti], v)
@@ -65,33 +61,25 @@ def conv_bool_none(ti: int, v: Optional[bool]) -> bool:
 
 def conv_float(ti: int, num: int, den: int) -> bool:
   """
-  pre: 0 <= ti < NT and -6 <= num <= 6 and 1 <= den <= 4
+  pre: 0 <= ti < NT and ti != 1 and -6 <= num <= 6 and 1 <= den <= 4
   post: _
   """
   return _check(TYPES[ti], num / den)
 
 
-def conv_special_float(ti: int, k: int) -> bool:
-  """
-  pre: 0 <= ti < NT and 0 <= k < len(FLOATS)
-  post: _
-  """
+def conv_special_float(ti, k):
   return _check(TYPES[ti], FLOATS[k])
 
 
 def conv_str(ti: int, v: str) -> bool:
   """
-  pre: 0 <= ti < NT and len(v) <= SL
+  pre: 0 <= ti < NT and ti != 1 and len(v) <= SL
   post: _
   """
   return _check(TYPES[ti], v)
 
 
-def conv_numeric_str(ti: int, k: int) -> bool:
-  """
-  pre: 0 <= ti < NT and 0 <= k < len(NUMSTR)
-  post: _
-  """
+def conv_numeric_str(ti, k):
   return _check(TYPES[ti], NUMSTR[k])
 
 
@@ -99,9 +87,24 @@ NUMSTR = ["1", "-1", "1.5", "1e3", "0x10", " 2 ", "1_0", "inf", "nan", "-0", "21
           "[1]", '["a"]', "[1, 2", "2020-01-02", "2020-01-02T03:04:05Z", "Table1[1]", "T[[1, 2]]", "", " ", "\x00", "\ud800"]
 
 
+LIST_ITEMS = [0, 1, 3, -1, "a", "", "1", None, True, 1.5, [1]]
+
+
+def conv_list_enum(ti, a, b, n):
+  return _check(TYPES[ti], [LIST_ITEMS[a], LIST_ITEMS[b]][:n]) and _check(TYPES[ti], tuple([LIST_ITEMS[a], LIST_ITEMS[b]][:n]))
+
+
+def conv_int_enum(ti, v):
+  return _check(TYPES[ti], v)
+
+
+def conv_float_enum(ti, num, den):
+  return _check(TYPES[ti], num / den)
+
+
 def conv_list(ti: int, v: List[Union[int, str]]) -> bool:
   """
-  pre: 0 <= ti < NT and len(v) <= 2
+  pre: 0 <= ti < NT and ti != 1 and len(v) <= 2
   pre: all((not isinstance(x, str)) or len(x) <= 1 for x in v)
   pre: all((not isinstance(x, int)) or -2 <= x <= 3 for x in v)
   post: _
@@ -109,36 +112,53 @@ def conv_list(ti: int, v: List[Union[int, str]]) -> bool:
   return _check(TYPES[ti], v)
 
 
-def conv_date(ti: int, k: int) -> bool:
-  """
-  pre: 0 <= ti < NT and 0 <= k < len(DATES)
-  post: _
-  """
+def conv_date(ti, k):
   return _check(TYPES[ti], DATES[k])
 
 
-def conv_special(ti: int, k: int) -> bool:
-  """
-  pre: 0 <= ti < NT and 0 <= k < len(SPECIAL)
-  post: _
-  """
+def conv_special(ti, k):
   return _check(TYPES[ti], SPECIAL[k])
 
 
-OBLIGATIONS = [
-  {"func": "conv_int", "cond_timeout": 200, "desc": "ints -4..4 x every type"},
-  {"func": "conv_bigint", "cond_timeout": 100, "desc": "boundary ints (2^31, 2^53, 10^30, ...) x every type"},
-  {"func": "conv_bool_none", "cond_timeout": 100, "desc": "True/False/None x every type"},
-  {"func": "conv_float", "cond_timeout": 300, "desc": "rationals num/den, |num| <= 6, den <= 4 x every type"},
-  {"func": "conv_special_float", "cond_timeout": 100, "desc": "inf, -inf, nan, -0.0, 1e308, ... x every type"},
-  {"func": "conv_str", "cond_timeout": 400, "desc": "every str of len <= %d x every type" % SL},
-  {"func": "conv_numeric_str", "cond_timeout": 100, "desc": "numeric/date/JSON-looking strings x every type"},
-  {"func": "conv_list", "cond_timeout": 400, "desc": "lists of <= 2 small ints / 1-char strs x every type"},
-  {"func": "conv_date", "cond_timeout": 100, "desc": "dates and datetimes x every type"},
-  {"func": "conv_special", "cond_timeout": 100, "desc": "AltText, errors, bytes, tuples, dicts, sets, RecordList, complex, ... x every type"},
+BLOB_IN = [5, True, 1.5, [1], "x", None, b"ab"]
+
+
+def conv_blob(k):
+  return _check(TYPES[1], BLOB_IN[k])
+
+
+def conv_str_enum(ti, v):
+  return _check(TYPES[ti], v)
+
+
+_CH = ["", "1", "a", "-", ".", "e", "[", "]", '"', " ", "T", "é", "٣", "0"]
+_TI = [i for i in range(NT) if i != 1]
+ENUM = [
+  {"func": "conv_str_enum", "domains": {"ti": _TI, "v": sorted({a + b for a in _CH for b in _CH})},
+   "shard_by": "ti", "max_s": 200, "desc": "every string of <= 2 characters over %d interesting characters x every type" % (len(_CH) - 1)},
+  {"func": "conv_int_enum", "domains": {"ti": _TI, "v": list(range(-4, 5))}, "shard_by": None, "max_s": 100, "desc": "ints -4..4 x every type"},
+  {"func": "conv_bigint", "domains": {"ti": _TI, "k": list(range(len(BIG)))}, "shard_by": None, "max_s": 100, "desc": "boundary ints (2^31, 2^53, 10^30, ...) x every type"},
+  {"func": "conv_float_enum", "domains": {"ti": _TI, "num": list(range(-6, 7)), "den": [1, 2, 3, 4]}, "shard_by": None, "max_s": 100,
+   "desc": "rationals num/den, |num| <= 6, den <= 4 x every type"},
+  {"func": "conv_special_float", "domains": {"ti": _TI, "k": list(range(len(FLOATS)))}, "shard_by": None, "max_s": 100, "desc": "inf, -inf, nan, -0.0, 1e308, ... x every type"},
+  {"func": "conv_numeric_str", "domains": {"ti": _TI, "k": list(range(len(NUMSTR)))}, "shard_by": None, "max_s": 100, "desc": "numeric/date/JSON-looking strings x every type"},
+  {"func": "conv_list_enum", "domains": {"ti": _TI, "a": list(range(len(LIST_ITEMS))), "b": list(range(len(LIST_ITEMS))), "n": [0, 1, 2]}, "shard_by": "ti", "max_s": 100,
+   "desc": "lists and tuples of <= 2 items out of %r x every type" % (LIST_ITEMS,)},
+  {"func": "conv_date", "domains": {"ti": _TI, "k": list(range(len(DATES)))}, "shard_by": None, "max_s": 100, "desc": "dates and datetimes x every type"},
+  {"func": "conv_special", "domains": {"ti": _TI, "k": list(range(len(SPECIAL)))}, "shard_by": None, "max_s": 100,
+   "desc": "AltText, errors, bytes, tuples, dicts, sets, RecordList, complex, ... x every type"},
+  {"func": "conv_blob", "domains": {"k": list(range(len(BLOB_IN)))}, "shard_by": None, "max_s": 60, "desc": "Blob column type (known finding: identity conversion)"},
 ]
-BOUNDS = {"types": [t.typename() for t in TYPES], "str": "len <= %d, any characters" % SL, "ints": "[-4, 4] + %d boundary values" % len(BIG),
-          "floats": "num/den grid + %d specials" % len(FLOATS), "lists": "len <= 2"}
+
+OBLIGATIONS = [
+  {"func": "conv_int", "cond_timeout": 60, "desc": "every int -4..4 x every type (symbolic)"},
+  {"func": "conv_bool_none", "cond_timeout": 60, "desc": "True/False/None x every type"},
+  {"func": "conv_float", "cond_timeout": 60, "desc": "rationals num/den, |num| <= 6, den <= 4 x every type (real-arithmetic floats: counterexample search only)"},
+  {"func": "conv_str", "cond_timeout": 100, "desc": "every str (any characters) of len <= %d x every type (symbolic; may be inconclusive)" % SL},
+  {"func": "conv_list", "cond_timeout": 100, "desc": "lists of <= 2 small ints / 1-char strs x every type (symbolic; may be inconclusive)"},
+]
+BOUNDS = {"types": [t.typename() for t in TYPES], "str": "len <= %d, any characters (symbolic); <= 2 over %d characters (enumerated)" % (SL, len(_CH) - 1),
+          "ints": "[-4, 4] + %d boundary values" % len(BIG), "floats": "num/den grid + %d specials" % len(FLOATS), "lists": "len <= 2"}
 FILES = ["sandbox/grist/usertypes.py", "sandbox/grist/objtypes.py"]
 ASSUMPTIONS = ["the type index is realised (one path family per column type); ints pass through int(float(v)) in Int.do_convert and "
-               "are realised there"]
+               "are realised there", "catalogue inputs (indices into fixed lists of concrete objects) are enumerated by the z3 AllSAT loop and run natively"]
